@@ -14,7 +14,7 @@ import (
 func init() {
 	register(&explore.Prop{
 		ID: "C07", Level: levelMC, Explorer: "E1 input-space enumerator + E2 path mode (visit orders with one reader)",
-		Rule: "DV-S (<=3 docs; per doc every subset of {x,y,\"\"} in doc-value field b, d in {absent,x}, a in {absent,y}) built and self-merged: readers on every ordered subset of {a,b,d,unknown} x every visiting order of length <=3 with one reader; DV-C (1023..1026, 2047..2049 docs x 8 placement patterns: empty chunk, only last doc of a chunk, ...) built / loaded / merged with renumbering across the 1024 boundary: every order of length <=3 (thorough <=4) over the documents of interest {0,1,1023,1024,1025,2047,2048,last}; MIX batches; merges of segments with inconsistent doc-value flags (per-source oracle); " +
+		Rule: "DV-S (<=3 docs; per doc every subset of {x,y,\"\"} in doc-value field b, d in {absent,x}, a in {absent,y}) built and self-merged: readers on every ordered subset of {a,b,d,unknown} x every visiting order of length <=3 with one reader; DV-C (1023..1026, 2047..2049 docs x 8 placement patterns: empty chunk, only last doc of a chunk, ...) built / loaded / merged with renumbering across the 1024 boundary: every order of length <=3 (thorough <=4) over the documents of interest {0,1,1023,1024,1025,2047,2048,last} and every order of length 4..5 over {0,1024,last}; MIX batches; merges of segments with inconsistent doc-value flags (per-source oracle); " +
 			"distinct = (segment, form, field list, visit order); non-trivial = some visit returns >=1 term; counters.cross_chunk_or_backward = orders with consecutive visits in different chunks or backwards",
 		Assumptions: commonAssumptions, Budget: qBudget, Run: runC07,
 	})
@@ -386,6 +386,24 @@ func runC07(c *explore.Ctx) {
 					nt = nt || any
 					if bad != "" {
 						c.Violate(scope, my, sigOf("C07", f.name, bad), bad, cas+" form="+f.name)
+						break
+					}
+				}
+				// longer orders over three documents (first, first of the second chunk, last): a reader
+				// settles into its steady state only from its third call on
+				nd := len(f.want.Docs)
+				three := []uint64{0, uint64(nd - 1)}
+				if nd > 1024 {
+					three = []uint64{0, 1024, uint64(nd - 1)}
+				}
+				for _, o := range orders(three, 5) {
+					if len(o) < 4 {
+						continue
+					}
+					c.R.Transitions += int64(len(o))
+					c.R.States++
+					if bad, _ := runDVSeq(f.seg, f.want, []string{"b", "d"}, o); bad != "" {
+						c.Violate(scope, my, sigOf("C07", f.name+"-long", bad), bad, cas+" form="+f.name)
 						break
 					}
 				}
